@@ -796,6 +796,16 @@ func (env *specEnv) evalCall(x *SCall) TV {
 			env.fail("hasPrefix needs a literal prefix")
 		}
 		return TV{T: hasPrefixTerm(a.T, lit), Sort: "Bool"}
+	case "indexof": // indexof(s, "lit"): strings.Index(s, "lit") (the function symbol of the handler)
+		argn(2)
+		a := env.eval(x.Args[0])
+		lit, ok := env.litString(x.Args[1])
+		if !ok || len(lit) == 0 {
+			env.fail("indexof needs a non-empty literal")
+		}
+		fn := "str_index_" + sanitize(u.lit(lit))
+		u.global(fmt.Sprintf("(declare-fun %s (Str) Int)", fn))
+		return TV{T: app(fn, a.T), Sort: "Int"}
 	case "hasSuffix": // hasSuffix(s, "lit")
 		argn(2)
 		a := env.eval(x.Args[0])
